@@ -160,6 +160,24 @@ def main():
     worst = 0.0
     iso_cache = {}
 
+    earlier_private = []   # (object, values written to it): private parameter objects stay what they were set to
+
+    def check_private_object(hid, step, g_before, obj, o):
+        """Invariant at the event: writing to a private parameter object changes neither the global parameters nor any other
+        private object (otherwise a later `parameters=None` operator legitimately bound to the globals would see values no
+        global assignment ever set, and the classifier below would take that for the documented lazy binding)."""
+        ctx.count("private_parameter_objects_checked")
+        if get_globals(api) != g_before:
+            ctx.violation("parameters:private_object_aliases_globals", "%s step %d: writing orders %s to a new DefaultParameters() changed the global parameters from %s to %s"
+                          % (hid, step, o, g_before, get_globals(api)), hid)
+            set_globals(api, g_before)
+        for other, vals in earlier_private[-6:]:
+            if (other.quadrature.regular, other.quadrature.singular) != vals:
+                ctx.violation("parameters:private_objects_alias_each_other", "%s step %d: an earlier private parameter object now reads %s, it was set to %s"
+                              % (hid, step, (other.quadrature.regular, other.quadrature.singular), vals), hid)
+                break
+        earlier_private.append((obj, tuple(o)))
+
     def iso_key(mname, cfg, eff, form, precision):
         return (mname, cfg[0], tuple(sorted(eff.items())), form, precision)
 
@@ -207,9 +225,11 @@ def main():
                     explicit = None
                     if rng.random() < 0.5:
                         o = ORDERS[int(rng.integers(len(ORDERS)))]
+                        g_before = get_globals(api)
                         explicit = api.DefaultParameters()
                         explicit.quadrature.regular, explicit.quadrature.singular = o
                         explicit.fmm.near_field_representation = get_globals(api)["near_field"]
+                        check_private_object(hid, step, g_before, explicit, o)
                     name, fam, op, tk, sk, k, assembler = cfg
                     trial, test = space(mname, tk), space(mname, sk)
                     if fam == "sparse":
@@ -287,8 +307,10 @@ def main():
                     explicit = None
                     if rng.random() < 0.5:
                         o = ORDERS[int(rng.integers(len(ORDERS)))]
+                        g_before = get_globals(api)
                         explicit = api.DefaultParameters()
                         explicit.quadrature.regular, explicit.quadrature.singular = o
+                        check_private_object(hid, step, g_before, explicit, o)
                     eff = get_globals(api)
                     if explicit is not None:
                         eff = dict(eff, regular=explicit.quadrature.regular)
